@@ -26,7 +26,7 @@ RATIOS = [1e-3, 0.1, 0.499, 0.5, 0.501, 1.0, 10.0, 1e3]
 def strata_minimum(tier):
     f = 1 if tier == "quick" else 20
     d = {"ratio-%g" % r: 300 * f for r in RATIOS}
-    d.update({"zero-radius": 300 * f, "negative-radius": 300 * f, "coincident": 200 * f, "axis-chord": 200 * f, "generic": 1500 * f})
+    d.update({"tiny-scale": 300 * f, "zero-radius": 300 * f, "negative-radius": 300 * f, "coincident": 200 * f, "axis-chord": 200 * f, "generic": 1500 * f})
     return d
 
 
@@ -43,7 +43,17 @@ def gen_case(R, index, tier):
     x1, y1 = coord(R), coord(R)
     fa, fs = R.randint(0, 1), R.randint(0, 1)
     rot = _rot(R)
-    if k < 0.45:
+    if k < 0.06:
+        # the low end of the stated coordinate range: everything of magnitude 1e-3
+        st = "tiny-scale"
+        sc = 10 ** R.uniform(-3, -2)
+        x1, y1 = R.uniform(-2, 2) * sc, R.uniform(-2, 2) * sc
+        chord = R.uniform(0.5, 2) * sc
+        ang = R.uniform(0, 2 * math.pi)
+        x2, y2 = x1 + chord * math.cos(ang), y1 + chord * math.sin(ang)
+        rx = chord * R.choice([0.3, 0.5, 0.6, 1.0, 2.0, R.uniform(0.2, 5)])
+        ry = rx * R.choice([1.0, 1.0, 0.5, 2.0, R.uniform(0.2, 5)])
+    elif k < 0.45:
         ratio = RATIOS[index % len(RATIOS)]
         st = "ratio-%g" % ratio
         chord = R.choice([1.0, 10.0, R.uniform(0.5, 200), 10 ** R.uniform(-2, 4)])
